@@ -4,6 +4,7 @@ package rtsp
 
 import (
 	"net"
+	"net/http"
 	"sync/atomic"
 )
 
@@ -43,4 +44,9 @@ func verifGo(f func()) {
 		defer atomic.AddInt64(&VerifAsync, -1)
 		f()
 	}()
+}
+
+// VerifHandleWs is WebsocketServer.HandleWebsocket for a server with the given observer (no listening).
+func VerifHandleWs(observer IServerObserver, auth ServerAuthConfig, w http.ResponseWriter, r *http.Request) {
+	NewWebsocketServer("", observer, auth).HandleWebsocket(w, r)
 }
